@@ -165,10 +165,11 @@ def ob_hooks():
         ef = it.call(it.getattr(enc, "default"), [xf])
         goals.append(Goal("numpy integer scalar -> same integer", lift(ei) == xi))
         goals.append(Goal("numpy float scalar -> same value (no int truncation)", lift(ef) == xf))
-        st = {1, 5, 9}
-        es = it.call(it.getattr(enc, "default"), [st])
-        back = it.call(S.json_numpy_or_set_obj_hook, [json.loads(json.dumps(es))])
-        goals.append(Goal("set round trip", back == st))
+        for st in ({1, 5, 9}, set(), {"auto", 1, 2, 4}, {None, 16, 64}, {"x", 2.5, None}, {True, "t"}):
+            # sets of any JSON-representable elements, also ones that cannot be ordered against each other
+            es = it.call(it.getattr(enc, "default"), [st])
+            back = it.call(S.json_numpy_or_set_obj_hook, [json.loads(json.dumps(es))])
+            goals.append(Goal("set round trip %r" % (sorted(map(repr, st)),), isinstance(back, set) and back == st))
         for arr in (np.arange(6, dtype=np.int32).reshape(2, 3), np.zeros((0, 3)), np.array([1.5, 2.5], dtype=np.float32),
                     np.asfortranarray(np.arange(6.0).reshape(2, 3)), np.arange(6.0).reshape(2, 3).T):
             ea = it.call(it.getattr(enc, "default"), [arr])
@@ -184,6 +185,13 @@ def ob_hooks():
 
     def rp(mv):
         import pyphysim.util.serialize as S
+        for st in ({1, 5, 9}, {"auto", 1, 2, 4}, {None, 16, 64}):
+            try:
+                got = json.loads(json.dumps({"a": st}, cls=S.NumpyOrSetEncoder), object_hook=S.json_numpy_or_set_obj_hook)["a"]
+            except Exception as e:
+                return {"confirmed": True, "value": repr(st), "JSON encoding raised": repr(e)}
+            if got != st:
+                return {"confirmed": True, "value": repr(st), "after round trip": repr(got)}
         for v in (np.float32(0.5), np.float16(0.25), np.float64(float(mv.get("xf", 0.5)) or 0.5)):
             got = json.loads(json.dumps({"a": v}, cls=S.NumpyOrSetEncoder), object_hook=S.json_numpy_or_set_obj_hook)["a"]
             if got != float(v):
@@ -194,7 +202,10 @@ def ob_hooks():
 
 # ------------------------------------------------------------------ bounded native
 def _rand_value(rr, depth=0):
-    k = rr.randint(14)
+    k = rr.randint(15)
+    if k == 14:
+        # a set whose elements cannot be ordered against each other (named options next to numbers, None as "not set")
+        return [{"auto", 1, 2, 4}, {None, 16, 64}, {"x", 2.5}, {None, "a"}, {"b", 0}][rr.randint(5)]
     if k == 0:
         return int(rr.randint(-1000, 1000))
     if k == 1:
@@ -293,6 +304,51 @@ def ob_native():
         s.current_rep = int([0, -1, 1, 500][rr.randint(4)])
         s.runned_reps = [int(x) for x in rr.randint(0, 9, len(kids))]
         objs.append(("results", s, SimulationResults))
+        # the results of ONE variation (what the runner saves as partial results): its parameters are an unpacked child
+        sk = SimulationResults()
+        sk.set_parameters(kids[rr.randint(len(kids))])
+        rk = Result("v", Result.SUMTYPE)
+        rk.update(3)
+        sk.add_result(rk)
+        objs.append(("results of one variation", sk, SimulationResults))
+
+        def observe(pp):
+            """everything the statement lists about a parameters object, beyond its own ==: marks, index, how many variations it
+            belongs to, and the same about the complete object it was unpacked from (values are compared by value below)"""
+            if pp is None:
+                return None
+            return {"names": sorted(pp.parameters), "unpacked": sorted(pp._unpacked_parameters_set), "index": pp.unpack_index,
+                    "variations": pp.get_num_unpacked_variations(), "from": observe(pp._original_sim_params)}
+
+        def same_values(pa_, pb_):
+            if pa_ is None or pb_ is None:
+                return pa_ is pb_
+            for k_, v_ in pa_.parameters.items():
+                w_ = pb_.parameters.get(k_)
+                if isinstance(v_, (set, frozenset)):
+                    if not (isinstance(w_, (set, frozenset)) and v_ == w_):
+                        return False
+                elif not deep_equal(v_, w_):
+                    return False
+            return same_values(pa_._original_sim_params, pb_._original_sim_params)
+        import pickle
+        for label, o, cls in objs:
+            try:
+                ob = pickle.loads(pickle.dumps(o))
+            except Exception as e:
+                return {label: "pickle round trip raised %r" % e, "params": str(d)[:300]}
+            if not (o == ob and ob == o):
+                return {label: "pickle round trip not equal", "params": str(d)[:300]}
+            pa, pb = (o, ob) if cls is SimulationParameters else (o.params, ob.params)
+            if observe(pa) != observe(pb) or not same_values(pa, pb):
+                return {label: "pickle round trip changed what the parameters report", "before": str(observe(pa))[:400], "after": str(observe(pb))[:400]}
+            try:
+                oj = cls.from_json(o.to_json())
+            except Exception as e:
+                return {label: "JSON round trip raised %r" % e, "params": str(d)[:300]}
+            pj = oj if cls is SimulationParameters else oj.params
+            if observe(pa) != observe(pj) or not same_values(pa, pj):
+                return {label: "JSON round trip changed what the parameters report", "before": str(observe(pa))[:400], "after": str(observe(pj))[:400]}
         for label, o, cls in objs:
             try:
                 o2 = cls.from_json(o.to_json())
